@@ -20,7 +20,7 @@ RULE = ("seeded random meshes as for C01 with more empty inputs (zero vertices /
 def gen_cases(rng, n, tier):
     from props.C01 import NEAR_BAND
 
-    cases = [dict(NEAR_BAND)]  # the known finding's example, always exercised
+    cases = [dict(NEAR_BAND)]  # the near-band example (fixed by fixes/C01-snap-on-plane-distances.diff), always exercised
     while len(cases) < n:
         if rng.random() < 0.12:
             k = rng.randint(1, 20)
@@ -153,7 +153,7 @@ def oracle(c, o):
     if c["vertices"] and all(x < -S.TOL for x in d) and all(sel) and (full["v"] or full["f"] or full["map"]):
         return "mesh wholly behind the plane did not give empty arrays"
     mag = max([Fr(1)] + [abs(x) for v in V for x in v] + [abs(x) for x in ref])
-    loose = Fr(1, 10 ** 5) if c.get("has_near") else Fr(1, 10 ** 9)
+    loose = Fr(1, 10 ** 9)
     # idempotence
     rs = o.get("reslice")
     if rs is not None:
@@ -200,6 +200,4 @@ def oracle(c, o):
 
 
 def classify(c, o, failure, disagrees):
-    if c.get("kind") == "unique_bincount":
-        return None
-    return S.near_band_class(c, failure)
+    return None
